@@ -320,6 +320,16 @@ class Check:
             ora[k].append("%s in harness: %s" % (why, sig))
             notes.append("history %d: %s %s" % (k, why, sig))
             start = k + 1
+            abnormal = sum(1 for n_ in notes if ": CRASH" in n_ or ": HANG" in n_)
+            hangs = sum(1 for n_ in notes if ": HANG" in n_)
+            if (abnormal >= int(os.environ.get("VERIF_MAX_CRASHES", "25")) or hangs >= 3) and start < len(histories):
+                # enough evidence: a tree that crashes / hangs this often is reported from the histories seen
+                # so far; the rest of the batch is not run (each hang costs a full time-out)
+                for i in range(start, len(histories)):
+                    if obs[i] is None:
+                        obs[i] = ["SKIPPED"]
+                notes.append("batch cut short after %d abnormal ends (%d hangs): %d histories not run" % (abnormal, hangs, len(histories) - start))
+                break
         return obs, ora, notes
 
     def run_model(self, binary, histories, timeout=600):
@@ -365,7 +375,10 @@ class Check:
         for i in range(min(3, len(histories))):
             k = (i * 7919) % len(histories)
             self.cov["samples"].append({"ops": histories[k][:12], "impl": impl[k][:12], "model": model[k][:12]})
-        fails = [i for i in range(len(histories)) if impl[i] != model[i] or ora[i]]
+        skipped = [i for i in range(len(histories)) if impl[i] == ["SKIPPED"]]
+        if skipped:
+            self.cov["counters"]["skipped_after_repeated_crashes" + ("_" + label if label else "")] = len(skipped)
+        fails = [i for i in range(len(histories)) if impl[i] != ["SKIPPED"] and (impl[i] != model[i] or ora[i])]
         self.cov["counters"]["failing_histories" + ("_" + label if label else "")] = len(fails)
         examined = 0
         t_shrink0 = time.time()
